@@ -330,4 +330,110 @@ def kDec : Decoder KMsg := fun bs =>
       else if label = 2 then .ok .done (n1 + n2)
       else .fail
 
+/-! ## block-fetch codec (`miniprotocols/blockfetch/codec.rs`, `common.rs::Point`; same wire format in
+     `pallas-network2/src/protocol/{blockfetch,common}.rs`) over the same primitive model -/
+
+/-- position-passing parser: value and bytes consumed -/
+abbrev P (α : Type) := Bytes → Prim α
+
+def P.pure {α : Type} (a : α) : P α := fun _ => .ok a 0
+
+def P.fail {α : Type} : P α := fun _ => .fail
+
+/-- sequencing (`?` on every primitive call) -/
+def P.bind {α β : Type} (p : P α) (f : α → P β) : P β := fun bs =>
+  match p bs with
+  | .ok a n =>
+    match f a (bs.drop n) with
+    | .ok b m => .ok b (n + m)
+    | .eoi => .eoi
+    | .fail => .fail
+  | .eoi => .eoi
+  | .fail => .fail
+
+/-- a head of the given major type with a definite argument (`Decoder::unsigned` after the type check):
+    `u64()` is `primHead 0`, `tag()` is `primHead 6`, the length of `bytes()` is `primHead 2` -/
+def primHead (major : Nat) : P Nat
+  | [] => .eoi
+  | b :: rest =>
+    if b.toNat / 32 ≠ major then mismatch b rest
+    else if b.toNat % 32 ≥ 28 then .fail
+    else
+      match headArg (b.toNat % 32) rest with
+      | none => .eoi
+      | some (v, used) => .ok v (1 + used)
+
+/-- `Decoder::u64` -/
+def primU64 : P Nat := primHead 0
+/-- `Decoder::tag` -/
+def primTag : P Nat := primHead 6
+/-- `Decoder::bytes`: definite length only, then `read_slice(n)` -/
+def primBytes : P Bytes := P.bind (primHead 2) fun n => fun bs =>
+  if bs.length < n then .eoi else .ok (bs.take n) n
+
+/-- minicbor encoder heads: shortest form -/
+def encHead (major n : Nat) : Bytes :=
+  if n < 24 then [UInt8.ofNat (major * 32 + n)]
+  else if n < 256 then [UInt8.ofNat (major * 32 + 24), UInt8.ofNat n]
+  else if n < 65536 then [UInt8.ofNat (major * 32 + 25), UInt8.ofNat (n / 256), UInt8.ofNat n]
+  else if n < 4294967296 then
+    [UInt8.ofNat (major * 32 + 26), UInt8.ofNat (n / 16777216), UInt8.ofNat (n / 65536),
+      UInt8.ofNat (n / 256), UInt8.ofNat n]
+  else
+    [UInt8.ofNat (major * 32 + 27), UInt8.ofNat (n / 72057594037927936),
+      UInt8.ofNat (n / 281474976710656), UInt8.ofNat (n / 1099511627776), UInt8.ofNat (n / 4294967296),
+      UInt8.ofNat (n / 16777216), UInt8.ofNat (n / 65536), UInt8.ofNat (n / 256), UInt8.ofNat n]
+
+/-- `Point` -/
+inductive Pt where
+  | origin
+  | specific (slot : Nat) (hash : Bytes)
+  deriving DecidableEq, Repr
+
+/-- `Encode for Point`: `array(0)` / `array(2) u64(slot) bytes(hash)` -/
+def ptEnc : Pt → Bytes
+  | .origin => [0x80]
+  | .specific slot hash => [0x82] ++ encHead 0 slot ++ (encHead 2 hash.length ++ hash)
+
+/-- `Decode for Point` -/
+def pPoint : P Pt := P.bind primArray fun size =>
+  match size with
+  | some 0 => P.pure .origin
+  | some 2 => P.bind primU64 fun slot => P.bind primBytes fun hash => P.pure (.specific slot hash)
+  | _ => P.fail
+
+inductive BFMsg where
+  | requestRange (p1 p2 : Pt)
+  | clientDone
+  | startBatch
+  | noBlocks
+  | block (body : Bytes)
+  | batchDone
+  deriving DecidableEq, Repr
+
+/-- `Encode for blockfetch::Message` -/
+def bfEnc : BFMsg → Bytes
+  | .requestRange p1 p2 => [0x83, 0x00] ++ (ptEnc p1 ++ ptEnc p2)
+  | .clientDone => [0x81, 0x01]
+  | .startBatch => [0x81, 0x02]
+  | .noBlocks => [0x81, 0x03]
+  | .block body => [0x82, 0x04] ++ ([0xd8, 0x18] ++ (encHead 2 body.length ++ body))
+  | .batchDone => [0x81, 0x05]
+
+/-- `Decode for blockfetch::Message` -/
+def pBlockFetch : P BFMsg := P.bind primArray fun _ => P.bind primU16 fun label =>
+  if label = 0 then P.bind pPoint fun p1 => P.bind pPoint fun p2 => P.pure (.requestRange p1 p2)
+  else if label = 1 then P.pure .clientDone
+  else if label = 2 then P.pure .startBatch
+  else if label = 3 then P.pure .noBlocks
+  else if label = 4 then P.bind primTag fun _ => P.bind primBytes fun body => P.pure (.block body)
+  else if label = 5 then P.pure .batchDone
+  else P.fail
+
+def bfDec : Decoder BFMsg := fun bs =>
+  match pBlockFetch bs with
+  | .ok m n => .ok m n
+  | .eoi => .eoi
+  | .fail => .fail
+
 end PallasVerif.Reassembly
